@@ -220,18 +220,102 @@ func tagSearchOut(c *Ctx, pre, out string) {
 	}
 }
 
+// ---- work budgets: the model costs ~100 us per position, so every generator phase has a node budget per shard
+
+type budget struct{ left int }
+
+func newBudget(c *Ctx, quick, thorough int) *budget {
+	n := quick
+	if c.Thorough() {
+		n = thorough
+	}
+	return &budget{left: n / c.NShard}
+}
+
+func (b *budget) take(n int) bool {
+	if n > b.left {
+		return false
+	}
+	b.left -= n
+	return true
+}
+
+func (b *budget) spent() bool { return b.left <= 0 }
+
+// nmCost: number of positions an exhaustive negamax to depth d visits (counting stops at limit)
+func nmCost(p *tak.Position, d int, limit int) int {
+	n := 1
+	over, _ := p.GameOver()
+	if d <= 0 || over {
+		return n
+	}
+	for _, m := range p.AllMoves(nil) {
+		c, e := p.Move(m)
+		if e != nil {
+			continue
+		}
+		n += nmCost(c, d-1, limit-n)
+		if n >= limit {
+			return n
+		}
+	}
+	return n
+}
+
+// searchCost: leaf evaluations + interior nodes of an Analyze line
+func searchCost(out string) int {
+	st := strings.Split(field(out, "st"), ",")
+	if len(st) < 4 {
+		return 1
+	}
+	return atoi(st[0]) + atoi(st[3]) + 1
+}
+
+// dryCost: what one Analyze of p costs on a fresh engine with this configuration
+func dryCost(s cfgSpec, p *tak.Position) int {
+	e := newEngine(s.size, s.tok())
+	e.evals, e.cancelAt = 0, opCap+1 // give up (by cancelling) once the search is known to be too big
+	_, _, st := e.ai.Analyze(ctxBackground, p)
+	e.cancelAt = 0
+	if st.Canceled {
+		return 10 * opCap
+	}
+	return e.evals + int(st.Visited) + 1
+}
+
+const opCap = 25000 // no single op above this many model positions
+
+// emitVerdict checks a reported (value, depth) against winner-only exhaustive negamax when that is affordable
+func emitVerdict(c *Ctx, b *budget, p *tak.Position, d int, v string) {
+	margin := verdictMargin(p.Size())
+	cost := nmCost(p, d+margin, opCap+1)
+	if cost > opCap || !b.take(2*cost) {
+		c.Count("verdict.skipped-too-big")
+		return
+	}
+	c.Emit(fmt.Sprintf("verdict %d %d %s %s", d, margin, encPos(p), v))
+	c.Count("verdict.checked")
+}
+
 // ---- C05
 
 func genC05(c *Ctx) {
 	r := c.R
 	c.Timeout = 0
 	// A: one Analyze on a fresh engine, compared field by field with the model
-	n := c.Scale(700, 60000)
-	for k := 0; k < n; k++ {
+	bud := newBudget(c, 1200000, 80000000)
+	for k := 0; !bud.spent() && k < 20000; k++ {
 		size := pickSize(r)
 		p := livePosition(r, size)
-		sizeTag(c, p)
 		s := exactCfg(c, size, r.Chance(1, 2))
+		if cost := dryCost(s, p); cost > opCap || !bud.take(cost) {
+			c.Count("A.skipped-too-big")
+			if cost <= opCap {
+				break
+			}
+			continue
+		}
+		sizeTag(c, p)
 		c.Count("A.tbl=" + strconv.Itoa(s.tbl))
 		if s.precise() {
 			c.Count("A.precise")
@@ -242,12 +326,23 @@ func genC05(c *Ctx) {
 		tagSearchOut(c, "A", out)
 	}
 	// B: value / depth / first move against exhaustive negamax, sort on and off, symmetry de-duplication
-	n = c.Scale(500, 40000)
-	for k := 0; k < n; k++ {
+	bud = newBudget(c, 1200000, 80000000)
+	for k := 0; !bud.spent() && k < 20000; k++ {
 		size := pickSize(r)
 		p := livePosition(r, size)
 		s := cfgSpec{size: size, depth: pickDepth(r, size, c.Thorough()), tbl: -1, seed: 1 + r.Intn(5), ev: pickEv(r),
 			sort: r.Chance(1, 2), dd: r.Chance(1, 3)}
+		cost := 0
+		for d := 1; d <= s.depth; d++ {
+			cost += nmCost(p, d, opCap+1)
+		}
+		if cost > opCap || !bud.take(3*cost) {
+			c.Count("B.skipped-too-big")
+			if cost <= opCap {
+				break
+			}
+			continue
+		}
 		c.Count(fmt.Sprintf("B.sort=%d.dd=%d", b2i(s.sort), b2i(s.dd)))
 		out := c.Emit("sval " + s.tok() + " " + encPos(p))
 		tagSearchOut(c, "B", out)
@@ -263,8 +358,8 @@ func genC05(c *Ctx) {
 		}
 	}
 	// C: histories on one engine, exact (NoSort): related / repeated positions, tiny tables, cancelled calls
-	n = c.Scale(120, 10000)
-	for k := 0; k < n; k++ {
+	bud = newBudget(c, 1200000, 80000000)
+	for k := 0; !bud.spent() && k < 20000; k++ {
 		size := pickSize(r)
 		s := exactCfg(c, size, r.Chance(2, 3))
 		if s.tbl < 0 || r.Chance(1, 2) {
@@ -292,6 +387,10 @@ func genC05(c *Ctx) {
 				idx = len(line) - 1
 			}
 			p := line[idx]
+			if dryCost(s, p) > opCap {
+				c.Count("C.skipped-too-big")
+				continue
+			}
 			kk := 0
 			if r.Chance(1, 6) {
 				kk = 1 + r.Intn(60)
@@ -303,11 +402,10 @@ func genC05(c *Ctx) {
 			}
 			out := c.Emit(line1)
 			tagSearchOut(c, "C", out)
+			bud.take(minInt(searchCost(out), bud.left))
 			if kk == 0 && out != "panic" {
-				v := field(out, "v")
-				d := field(out, "d")
-				if d != "0" {
-					c.Emit(fmt.Sprintf("verdict %s %d %s %s", d, verdictMargin(size), encPos(p), v))
+				if d := field(out, "d"); d != "0" {
+					emitVerdict(c, bud, p, atoi(d), field(out, "v"))
 				}
 			}
 			if r.Chance(1, 10) {
@@ -315,14 +413,15 @@ func genC05(c *Ctx) {
 				c.Count("C.getmove")
 			}
 			if r.Chance(1, 12) {
-				c.Emit("aa A " + encPos(p))
+				out = c.Emit("aa A " + encPos(p))
+				bud.take(minInt(searchCost(out), bud.left))
 				c.Count("C.analyzeall")
 			}
 		}
 	}
 	// D: histories with sorting / de-duplication: the engine runs silently, its verdicts are checked
-	n = c.Scale(120, 10000)
-	for k := 0; k < n; k++ {
+	bud = newBudget(c, 800000, 60000000)
+	for k := 0; !bud.spent() && k < 20000; k++ {
 		size := pickSize(r)
 		s := cfgSpec{size: size, depth: pickDepth(r, size, c.Thorough()), tbl: tinyTables[r.Intn(len(tinyTables))],
 			seed: 1 + r.Intn(5), ev: pickEv(r), sort: r.Chance(3, 4), dd: r.Chance(1, 3)}
@@ -347,9 +446,10 @@ func genC05(c *Ctx) {
 			p := line[idx]
 			c.Emit("anq A " + encPos(p))
 			last, _ := c.S.slots["last:A"].(lastResult)
+			bud.take(minInt(200+last.evals/20, bud.left)) // the model side does nothing here; bounds the Go time
 			c.Count("D.depth=" + strconv.Itoa(last.depth))
 			if last.depth > 0 {
-				c.Emit(fmt.Sprintf("verdict %d %d %s %d", last.depth, verdictMargin(size), encPos(p), last.v))
+				emitVerdict(c, bud, p, last.depth, strconv.FormatInt(last.v, 10))
 			}
 		}
 	}
@@ -382,6 +482,7 @@ type lastResult struct {
 	v     int64
 	depth int
 	canc  bool
+	evals int
 }
 
 func analyzeDirect(e *engine, p *tak.Position) ([]tak.Move, int64, ai.Stats) {
@@ -393,8 +494,8 @@ func analyzeDirect(e *engine, p *tak.Position) ([]tak.Move, int64, ai.Stats) {
 
 func genC16(c *Ctx) {
 	r := c.R
-	n := c.Scale(60, 6000)
-	for k := 0; k < n; k++ {
+	bud := newBudget(c, 2500000, 160000000)
+	for k := 0; !bud.spent() && k < 20000; k++ {
 		size := pickSize(r)
 		precise := r.Chance(1, 2)
 		s := exactCfg(c, size, precise)
@@ -414,9 +515,17 @@ func genC16(c *Ctx) {
 			c.Count("default-like")
 		}
 		// size of the uncancelled search
+		if dryCost(s, p) > opCap || dryCost(s, p2) > opCap {
+			c.Count("skipped-too-big")
+			continue
+		}
 		e := newEngine(size, s.tok())
 		analyzeDirect(e, p)
 		total := e.evals
+		if total > 3000 {
+			c.Count("skipped-too-big")
+			continue
+		}
 		c.Count("evals~" + strconv.Itoa(total/100*100))
 		var ks []int
 		if total <= 40 || (c.Thorough() && total <= 400) {
@@ -430,6 +539,9 @@ func genC16(c *Ctx) {
 			}
 		}
 		for _, kk := range ks {
+			if !bud.take(4 * total) {
+				break
+			}
 			c.Emit(fmt.Sprintf("case C16-%d-%d-%d", c.Shard, k, kk))
 			c.Emit("eng A " + s.tok())
 			out := c.Emit(fmt.Sprintf("an A %s %d", encPos(p), kk))
@@ -456,7 +568,7 @@ func genC16(c *Ctx) {
 				c.Emit(fmt.Sprintf("eqclaim v=%s|d=%s v=%s|d=%s", field(out2, "v"), field(out2, "d"), field(ref2, "v"), field(ref2, "d")))
 				c.Count("followup.value-equality")
 			} else if field(out2, "d") != "0" && field(out2, "d") != "" {
-				c.Emit(fmt.Sprintf("verdict %s %d %s %s", field(out2, "d"), verdictMargin(size), encPos(p2), field(out2, "v")))
+				emitVerdict(c, bud, p2, atoi(field(out2, "d")), field(out2, "v"))
 				c.Count("followup.verdict")
 			}
 		}
